@@ -16,7 +16,8 @@
    parametric only for relations that equals is blind to (section hypothesis [R_equals]: true for
    renamings, FALSE for emit/reload: finding F53). *)
 From Coq Require Import String Ascii List ZArith Bool Lia.
-Require Import Blots.Num Blots.gen.Builtins Blots.Ast Blots.Value Blots.Outcome
+Require Import Blots.Num Blots.gen.Builtins Blots.Ast Blots.Value Blots.Outcome Blots.Binop
+               Blots.Env Blots.Eval Blots.BuiltinsHof Blots.Program Blots.EvalInst Blots.EvalFull
                Blots.proofs.ValueInd Blots.proofs.EmitHO.
 Require Import Blots.Access Blots.BuiltinsList Blots.BuiltinsText.
 Require Blots.BuiltinsAgg.
@@ -61,6 +62,34 @@ Lemma Forall2_len {A B} (Q : A -> B -> Prop) l l' : Forall2 Q l l' -> length l =
 Proof. induction 1; cbn; congruence. Qed.
 Lemma Forall2_map_same {A B} (Q : B -> B -> Prop) (f : A -> B) l : (forall a, Q (f a) (f a)) -> Forall2 Q (map f l) (map f l).
 Proof. intros H. induction l; cbn; constructor; auto. Qed.
+
+(* ---- the pure arms that EvalFull.builtin_full adds to EvalInst.builtin_impl, as a table ---- *)
+Definition pure_arm_of (b : builtin) : option (list value -> outcome value) :=
+  match b with
+  | B_min => Some BuiltinsAgg.bi_min | B_max => Some BuiltinsAgg.bi_max | B_avg => Some BuiltinsAgg.bi_avg
+  | B_sum => Some BuiltinsAgg.bi_sum | B_prod => Some BuiltinsAgg.bi_prod
+  | B_median => Some BuiltinsAgg.bi_median | B_percentile => Some BuiltinsAgg.bi_percentile
+  | B_dot => Some BuiltinsAgg.bi_dot
+  | B_range => Some bi_range | B_len => Some bi_len | B_head => Some bi_head | B_tail => Some bi_tail
+  | B_slice => Some bi_slice | B_concat => Some bi_concat | B_unique => Some bi_unique
+  | B_sort => Some bi_sort | B_reverse => Some bi_reverse | B_split => Some bi_split
+  | B_replace => Some bi_replace | B_includes => Some bi_includes | B_keys => Some bi_keys
+  | B_values => Some bi_values | B_entries => Some bi_entries | B_flatten => Some bi_flatten
+  | B_zip => Some bi_zip | B_chunk => Some bi_chunk
+  | B_convert => Some bi_convert | B_round => Some bi_round | B_random => Some bi_random
+  | B_to_number => Some bi_to_number | B_to_string => Some bi_to_string | B_join => Some bi_join_full
+  | _ => None
+  end.
+(* the arms that apply Value::equals to argument elements *)
+Definition equals_based (b : builtin) : bool :=
+  match b with B_unique | B_includes => true | _ => false end.
+Definition callback_arm (b : builtin) : bool :=
+  match b with B_sort_by | B_group_by | B_count_by => true | _ => false end.
+Lemma builtin_full_pure : forall cb b f, pure_arm_of b = Some f -> builtin_full cb b = pure_bi f.
+Proof. intros cb b f E. destruct b; cbn in E; try discriminate E; inversion E; reflexivity. Qed.
+Lemma builtin_full_other : forall cb b, pure_arm_of b = None -> callback_arm b = false ->
+  builtin_full cb b = builtin_impl cb b.
+Proof. intros cb b E C. destruct b; cbn in E, C; try discriminate; reflexivity. Qed.
 
 Section RelPure.
   Variable R : value -> value -> Prop.
@@ -510,6 +539,23 @@ Section RelPure.
     rewrite <- (mapM_stringify_R _ _ Hl). destruct (mapM stringify_internal l); [exact (R_str _)|exact I..].
   Qed.
 
+
+  (* every pure arm that does not apply Value::equals *)
+  Ltac arms :=
+    first [ apply bi_min_R | apply bi_max_R | apply bi_avg_R | apply bi_sum_R | apply bi_prod_R
+          | apply bi_median_R | apply bi_percentile_R | apply bi_dot_R | apply bi_range_R | apply bi_len_R
+          | apply bi_head_R | apply bi_tail_R | apply bi_slice_R | apply bi_concat_R | apply bi_sort_R
+          | apply bi_reverse_R | apply bi_split_R | apply bi_replace_R | apply bi_keys_R | apply bi_values_R
+          | apply bi_entries_R | apply bi_flatten_R | apply bi_zip_R | apply bi_chunk_R | apply bi_convert_R
+          | apply bi_round_R | apply bi_random_R | apply bi_to_number_R | apply bi_to_string_R
+          | apply bi_join_full_R ].
+  Theorem pure_arms_R : forall b f, pure_arm_of b = Some f -> equals_based b = false ->
+    forall args args', RL args args' -> OR (f args) (f args').
+  Proof.
+    intros b f E Hq args args' H.
+    destruct b; cbn in E, Hq; try discriminate; inversion E; subst f; arms; exact H.
+  Qed.
+
   (* ================= unique / includes: Value::equals =================
      parametric exactly when equals is blind to R *)
   Section WithEquals.
@@ -537,6 +583,12 @@ Section RelPure.
       - barg 1%nat b b' Hb. bstr Hb n. exact (R_bool _).
       - clear K. induction HL as [|x x' l l' Hx _ IH]; [exact (R_bool _)|].
         barg 1%nat b b' Hb. rewrite <- (R_equals _ _ _ _ Hx Hb). destruct (equals x b); [exact (R_bool _)|exact IH].
+    Qed.
+    Theorem pure_arms_R_eq : forall b f, pure_arm_of b = Some f ->
+      forall args args', RL args args' -> OR (f args) (f args').
+    Proof.
+      intros b f E args args' H. destruct (equals_based b) eqn:Hq; [|exact (pure_arms_R b f E Hq args args' H)].
+      destruct b; cbn in E, Hq; try discriminate; inversion E; subst f; [apply bi_unique_R|apply bi_includes_R]; exact H.
     Qed.
   End WithEquals.
 
